@@ -38,6 +38,36 @@ Lemma no_anonymous_or_tls_data :
   forallb (fun s => negb (String.prefix "<anon>" (s_name s)) && negb (String.eqb (s_sec s) ".tdata") && negb (String.eqb (s_sec s) ".tbss")) table = true.
 Proof. vm_compute. reflexivity. Qed.
 
+
+(** PER SHARED OBJECT (round 2): every compiled library of the build (Gen [libs], regenerated) either holds no
+    process-wide state of its own — nothing but the C runtime's startup objects ("static-free") — or every object
+    it holds is on the reviewed allow-list with reviewed writers; and every static of the table belongs to a
+    listed shared object. *)
+Definition lib_statics (l : string) : list static := filter (fun s => String.eqb (s_lib s) l) table.
+Definition lib_static_free (l : string) : bool :=
+  forallb (fun s => match class_of allow_list s with Some Runtime => true | _ => false end) (lib_statics l).
+Definition lib_classified (l : string) : bool := forallb (check_static allow_list) (lib_statics l).
+
+Lemma every_library_static_free_or_classified :
+  forallb (fun l => lib_static_free l || lib_classified l) libs = true /\
+  forallb (fun s => mem_str (s_lib s) libs) table = true.
+Proof. split; vm_compute; reflexivity. Qed.
+
+Lemma library_static_free_or_classified : forall l, In l libs ->
+  (forall s, In s table -> s_lib s = l -> class_of allow_list s = Some Runtime) \/
+  (forall s, In s table -> s_lib s = l ->
+     exists a, lookup allow_list s = Some a /\ incl (s_writers s) (a_writers a) /\ incl (s_addr s) (a_addr a)).
+Proof.
+  intros l Hl. destruct every_library_static_free_or_classified as [H _].
+  rewrite forallb_forall in H. specialize (H l Hl). apply orb_true_iff in H. destruct H as [H|H].
+  - left. intros s Hs El. unfold lib_static_free in H. rewrite forallb_forall in H.
+    specialize (H s). assert (Hin : In s (lib_statics l)) by (apply filter_In; split; [exact Hs | subst; apply String.eqb_refl]).
+    specialize (H Hin). destruct (class_of allow_list s) as [[]|]; try discriminate. reflexivity.
+  - right. intros s Hs El. unfold lib_classified in H.
+    assert (Hin : In s (lib_statics l)) by (apply filter_In; split; [exact Hs | subst; apply String.eqb_refl]).
+    destruct (check_sound allow_list (lib_statics l) H s Hin) as [a [H1 [H2 [H3 _]]]]. exists a. auto.
+Qed.
+
 (** classification of static number x of this build *)
 Definition cls_build (x : sid) : class :=
   match nth_error table x with
